@@ -151,16 +151,19 @@ theorem withSubdoc_aux (b : Bool) (x : R Val) (part : String) (fs : Fields) (r :
     · cases h
     · cases h; exact TopOK.dset _ _ hn
 
-theorem withSubdoc_top (f : Val → String → R Val)
+theorem withSubdoc_top (f : Val → String → R Val) (create : Bool)
     (hf : ∀ ps last r', (dkeys ps).Nodup → f (.doc ps) last = .ok r' → TopOK r')
     (parts : List String) (following : Bool) (subspec : Val) (fs : Fields) (r : Val)
-    (hn : (dkeys fs).Nodup) (h : withSubdoc f parts following subspec (.doc fs) = .ok r) : TopOK r := by
+    (hn : (dkeys fs).Nodup) (h : withSubdoc f create parts following subspec (.doc fs) = .ok r) :
+    TopOK r := by
   match parts with
   | [] => simp [withSubdoc] at h; subst h; exact TopOK.mk' hn
   | [last] => unfold withSubdoc at h; exact hf fs last r hn h
   | part :: p2 :: rest =>
-    unfold withSubdoc at h
-    exact withSubdoc_aux _ _ part fs r hn h
+    simp only [withSubdoc] at h
+    split at h
+    · cases h; exact TopOK.mk' hn
+    · exact withSubdoc_aux _ _ part fs r hn h
 
 theorem addToSetField_top (spec d : Val) (field : String) (value r : Val) (hd : TopOK d)
     (h : addToSetField spec d field value = .ok r) : TopOK r := by
@@ -179,7 +182,7 @@ theorem addToSetField_top (spec d : Val) (field : String) (value r : Val) (hd : 
         · cases h; exact TopOK.dset _ _ hn
       · split at h
         · cases h
-        · refine withSubdoc_top _ ?_ _ _ _ fs r hn h
+        · refine withSubdoc_top _ _ ?_ _ _ _ fs r hn h
           intro ps last r' hps hf
           simp only [bind, Except.bind, pure, Except.pure] at hf
           split at hf
@@ -226,7 +229,7 @@ theorem pullAllField_top (spec d : Val) (field : String) (value r : Val) (hd : T
           · cases h
           · cases h; exact TopOK.dset _ _ hn
         · cases h; exact TopOK.mk' hn
-      · refine withSubdoc_top _ ?_ _ _ _ fs r hn h
+      · refine withSubdoc_top _ _ ?_ _ _ _ fs r hn h
         intro ps last r' hps hf
         simp only [bind, Except.bind, pure, Except.pure] at hf
         split at hf
@@ -243,7 +246,7 @@ theorem pushField_top (spec d : Val) (field : String) (value r : Val) (hd : TopO
   · simp [unmodelled] at h
   · split at h
     · simp [unmodelled] at h
-    · refine withSubdoc_top _ ?_ _ _ _ fs r hn h
+    · refine withSubdoc_top _ _ ?_ _ _ _ fs r hn h
       intro ps last r' hps hf
       simp only [bind, Except.bind, pure, Except.pure] at hf
       split at hf
